@@ -29,6 +29,7 @@ def regenerate(res):
         return
     common.write_if_changed(os.path.join(common.COQ, "Gen", "Grammar.v"), text)
     res.trusted.append("translate/re2gallina.py (CPython re._parser tree -> regex AST, fail-closed subset)")
+    common.regenerate_with(res, "dispatch2gallina", "DispatchGen.v", "T19: DigitalRFEventHandler.__init__ / dispatch")
 
 
 # --------------------------------------------------------------------------- real handler
